@@ -820,12 +820,13 @@ def elemChar (s : Str) : Option (Rune × Bool × Str) :=
       | d :: rest' => some (d, true, rest')
     else some (c, false, rest)
 
-/-- The elements of a bracket expression up to the closing `]`. -/
-def scanItems (fn : Bool) : Nat → Bool → BSt → Str → Option (BSt × Str)
-  | 0, _, _, _ => none
-  | _ + 1, _, _, [] => none
+/-- The elements of a bracket expression: the scan state at the end, and the rest after the
+    closing `]` if there is one. -/
+def scanItems (fn : Bool) : Nat → Bool → BSt → Str → BSt × Option Str
+  | 0, _, st, _ => (st, none)
+  | _ + 1, _, st, [] => (st, none)
   | fuel + 1, first, st, c :: rest =>
-    if c = cRB ∧ !first then some (st, rest)
+    if c = cRB ∧ !first then (st, some rest)
     else
       match (if c = cLB then scanClass rest else none) with
       | some (n, .ok k) =>
@@ -838,7 +839,7 @@ def scanItems (fn : Bool) : Nat → Bool → BSt → Str → Option (BSt × Str)
           { st1 with slash := st1.slash || (fn && (rest.take n).contains cSlash) } (rest.drop n)
       | none =>
         match elemChar (c :: rest) with
-        | none => none                                      -- a lone backslash at the end
+        | none => (st, none)                                -- a lone backslash at the end
         | some (lo, _, r1) =>
           let sl1 := fn && lo == cSlash
           -- `lo-hi` unless the dash is the last character of the bracket expression
@@ -846,52 +847,31 @@ def scanItems (fn : Bool) : Nat → Bool → BSt → Str → Option (BSt × Str)
           | d :: r2 =>
             if d = cDash ∧ r2.head? ≠ some cRB then
               match elemChar r2 with
-              | none => none
+              | none => (st, none)
               | some (hi, _, r3) =>
                 let st1 := { st with items := st.items ++ [.range lo hi],
                                      slash := st.slash || sl1 || (fn && hi == cSlash) }
                 scanItems fn fuel false
                   (if hi < lo then st1.addErr (.badRange lo hi) false else st1) r3
             else scanItems fn fuel false { st with items := st.items ++ [.ch lo], slash := st.slash || sl1 } r1
-          | [] => none
-
-/-- The first error of the kind that counts in an unclosed bracket. -/
-def openClassErr (fn : Bool) : Nat → Bool → Str → Option Err
-  | 0, _, _ => none
-  | _ + 1, _, [] => none
-  | fuel + 1, first, c :: rest =>
-    if c = cRB ∧ !first then none
-    else
-      match (if c = cLB then scanClass rest else none) with
-      | some (_, .error e) => some (.cls e)
-      | some (n, .ok _) => openClassErr fn fuel false (rest.drop n)
-      | none =>
-        match elemChar (c :: rest) with
-        | none => none
-        | some (_, _, r1) =>
-          match r1 with
-          | d :: r2 =>
-            if d = cDash ∧ r2.head? ≠ some cRB then
-              match elemChar r2 with
-              | none => none
-              | some (_, _, r3) => openClassErr fn fuel false r3
-            else openClassErr fn fuel false r1
-          | [] => none
+          | [] => (st, none)
 
 /-- A bracket expression, from just after the `[`.  In filename mode a slash before the closing
-    bracket makes the `[` an ordinary character (POSIX 2.13.3). -/
+    bracket makes the `[` an ordinary character (POSIX 2.13.3).  A range with reversed end points,
+    or an unknown / unsupported class element, makes the pattern malformed; the latter even when
+    the bracket never closes (pattern.go's documented choice where bash is inconsistent). -/
 def scanBracket (fn : Bool) (s : Str) : BScan :=
   let neg := s.head? = some cBang ∨ s.head? = some cCaret
   let body := if neg then s.tail else s
   let st0 : BSt := { items := [], slash := false, rangeErr := none, classErr := none }
   match scanItems fn (body.length + 1) true st0 body with
-  | some (st, rest) =>
+  | (st, some rest) =>
     if st.slash then .notBracket
     else match st.rangeErr with
       | some e => .malformed e
       | none => .ok neg st.items rest
-  | none =>
-    match openClassErr fn (body.length + 1) true body with
+  | (st, none) =>
+    match st.classErr with
     | some e => .malformed e
     | none => .notBracket
 
@@ -1101,7 +1081,8 @@ def brSupported (fn : Bool) : Nat → Bool → Str → Bool
             | d :: r2 =>
               if d = cDash ∧ r2.head? ≠ some cRB then
                 match r2 with
-                | hi :: r3 => hi != cBS && hi != cLB && !(fn && hi == cSlash) && brSupported fn fuel false r3
+                | hi :: r3 =>
+                  hi != cBS && hi != cLB && hi != cDash && !(fn && hi == cSlash) && brSupported fn fuel false r3
                 | [] => true
               else brSupported fn fuel false r1
             | [] => true
